@@ -65,6 +65,12 @@ CHECKS["C11"] = dict(level="model_checking", engine="bfs",
    note="The XOF primitives themselves (TurboSHAKE, AES, HMAC) are trusted; the reference is relative (chunking independence), not absolute.",
    design="§2 C11")
 
+CHECKS["C12"] = dict(level="model_checking", engine="stateright",
+   technique="stateright explicit-state BFS over a leader/helper model whose every transition calls the real ping-pong routines on values reloaded from their wire encodings; fault-budgeted deliveries (replay, re-typed, corrupted, truncated, extended, empty)",
+   text="States hold each party only as encodings (verifier state, continuation, output), so every step is a reload from persistent form and every stored continuation is decoded and evaluated three times (byte-identical results required). The environment delivers the pending message or, within a fault budget of 2 (thorough 3), any earlier message of either direction, the pending payload under each other variant tag, every single-byte flip, truncation, extension or the empty message. Invariants: fault-free runs exchange exactly Initialize, Continue x (R-1), Finish in alternating directions and finish with the direct-broadcast output shares; faulty messages are refused (instrumented VDAF: immediately; real VDAFs: before any output share is released); refusals change nothing. Subjects: an order- and round-sensitive instrumented VDAF with 1..4 rounds, Prio3Count, Prio3Histogram, Poplar1 inner/leaf, the crate's dummy VDAF with 1..3 rounds. The checker is run twice and state counts compared.",
+   note="Two parties (the topology's definition). For the dummy VDAF, whose messages are empty, replays are indistinguishable and only kind/undecodable faults are judged. A corrupted-but-decodable payload slipping through a real VDAF has probability ~2^-57.",
+   design="§2 C12")
+
 NOT_APPLICABLE = {}
 
 def main():
